@@ -32,7 +32,7 @@ TRUSTED_EXTRA = c02.TRUSTED_EXTRA + [
 def run(ctx):
     if ctx.replay:
         return c02.replay(ctx, "C06")
-    return memcache.explore(ctx, "C06", 2400 if ctx.thorough else 420, "main")
+    return memcache.explore(ctx, "C06", 12000 if ctx.thorough else 1000, "main")
 
 
 def search(ctx, res):
